@@ -566,7 +566,8 @@ pub unsafe trait Pe<'a>: PeObject<'a> + Copy {
 		Self: Copy,
 	{
 		let datadir = self.data_directory().get(IMAGE_DIRECTORY_ENTRY_RESOURCE).ok_or(Error::Bounds)?;
-		let bytes = self.slice_bytes(datadir.VirtualAddress)?;
+		// The resource structures are referenced in place relative to the start of the directory, it must be dword aligned
+		let bytes = self.slice(datadir.VirtualAddress, 0, mem::align_of::<IMAGE_RESOURCE_DIRECTORY>())?;
 		let size = cmp::min(datadir.Size as usize, bytes.len());
 		Ok(crate::resources::Resources::new(&bytes[..size], datadir))
 	}
